@@ -22,6 +22,10 @@ def sig_of(rej, scn):
             sig += ":after-" + rej["k"]
     elif why in ("text", "cursor", "change", "submit"):
         sig += ":" + str(rej.get("k"))
+    # what the history up to the rejected command contains (since the content was last replaced as a whole)
+    for tag in ("setval", "deljoin"):
+        if tag in (rej.get("ctx") or []):
+            sig += ":after-" + tag
     return sig
 
 
@@ -95,7 +99,13 @@ def main(c):
         "code point is a letter or digit (Go unicode tables); trusted base",
         "alphabet {a, b, 7, ideograph, decomposed e-acute, space, hyphen, emoji+modifier, flag}: no inserted cluster "
         "merges with a neighbour, except the joining characters (combining mark, emoji modifier, voiced sound mark) "
-        "typed or pasted directly behind their base (insjoin/pastejoin: the resulting cluster is a logged fact)",
+        "typed or pasted directly behind their base (insjoin/pastejoin: the resulting cluster is a logged fact), and the "
+        "halves of four clusters (two regional indicators, Hangul L+V, Hangul syllable+T, emoji ZWJ + emoji) typed at the end "
+        "of the line with one grapheme between them, which is then deleted (the pair and the cluster it forms are a logged "
+        "fact; the cursor may then be on either side of the joined cluster)",
+        "a TextField is given content by assigning its exported Value (setval): the cursor keeps its index, kept within "
+        "the text; its private cursor index is read again only after the next command the widget acts on; two "
+        "assignments with no such command between them are not generated",
         "keys are the vaxis.Key values the legacy decoder delivers (press events; one key event per typed/pasted grapheme; "
         "a pasted C0 byte/DEL arrives as the key it encodes - Enter, Ctrl+a, BackSpace ... - with EventType paste and no text)",
         "a pasted character that cannot be displayed (C0, DEL) may be kept or dropped, nothing else may happen; a text "
@@ -107,15 +117,25 @@ def main(c):
         "textinput's drawn cursor is read through the verif hook Vaxis.VerifRequestedCursor",
     ]
     if not c.replay:
-        c.model_check(specs, "MC_LineEdit.tla", "MC_LineEdit.cfg" if c.tier == "quick" else "MC_LineEdit_deep.cfg", workers=8)
-        ok, _ = c.model_check(specs, "MC_LineEdit.tla", "MC_LineEdit_orig.cfg", workers=4, expect_violation=True)
-        c.cov["models"][-1]["expected_violation"] = True
-        if ok:
-            c.notes.append("MC_LineEdit_orig.cfg unexpectedly passed: the stale-count transcription is no longer refuted")
-        ok, _ = c.model_check(specs, "MC_LineEdit.tla", "MC_LineEdit_pasteexec.cfg", workers=4, expect_violation=True)
-        c.cov["models"][-1]["expected_violation"] = True
-        if ok:
-            c.notes.append("MC_LineEdit_pasteexec.cfg unexpectedly passed: executing pasted control characters is no longer refuted")
+        # the repaired transcription against the oracle, and the three transcriptions as found, which TLC must
+        # refute (stale count after a deletion; pasted control characters executed; count and cursor not
+        # refreshed after the value was assigned); side by side
+        from concurrent.futures import ThreadPoolExecutor
+        models = [("MC_LineEdit.cfg" if c.tier == "quick" else "MC_LineEdit_deep.cfg", 8, False, None),
+                  ("MC_LineEdit_orig.cfg", 2, True, "the stale-count transcription is no longer refuted"),
+                  ("MC_LineEdit_pasteexec.cfg", 2, True, "executing pasted control characters is no longer refuted"),
+                  ("MC_LineEdit_valstale.cfg", 2, True,
+                   "a count and cursor not refreshed after the value was assigned are no longer refuted")]
+        with ThreadPoolExecutor(len(models)) as ex:
+            res = list(ex.map(lambda m: c.model_check(specs, "MC_LineEdit.tla", m[0], workers=m[1], expect_violation=m[2])[0], models))
+        order = {m[0]: k for k, m in enumerate(models)}
+        c.cov["models"].sort(key=lambda st: order.get(st["cfg"], 99))
+        for st in c.cov["models"]:
+            if st["cfg"] != models[0][0]:
+                st["expected_violation"] = True
+        for m, ok in zip(models, res):
+            if m[2] and ok:
+                c.notes.append("%s unexpectedly passed: %s" % (m[0], m[3]))
     lap("model_check")
     td = c.drive(drv, "c17", replay=c.replay)
     lap("drive")
@@ -150,8 +170,10 @@ def main(c):
         rule="scenario = (widget, prompt, window width, command history); bounded-exhaustive: every history of length "
              "1..2 (quick) / 1..4 (thorough) over the widget's command alphabet (insert narrow/wide/two-codepoint/blank "
              "grapheme, every navigation and deletion key, Enter or paste; TextField: a paste holding a control character) "
-             "from 5 starting contents/cursors, window widths cycling 0..40; prefixed: from the same starts a base plus a "
-             "typed/pasted joining character (4 pairs x 3 forms) or a paste holding one of 11 control characters, then "
-             "every history of length 0..1 (quick) / 0..2 (thorough); seeded random histories of 60..300 commands incl. method calls, unbound keys, key "
-             "releases, pastes (a third with control characters), joining characters, resizes; hand-written corners. Every command is one event checked by LineEdit!Next "
+             "from 5 starting contents/cursors (TextField: an assignment of Value is one more command, and 2 more starts "
+             "given through Value, one with the cursor beyond the new end), window widths cycling 0..40; prefixed: from the "
+             "same 5 starts a base plus a typed/pasted joining character (4 pairs x 3 forms) or a paste holding one of 11 control "
+             "characters, from 2 of them the deletion (BackSpace, Delete; textinput Ctrl+w) of the grapheme between two that "
+             "then join (4 pairs), then every history of length 0..1 (quick) / 0..2 (thorough); seeded random histories of 60..300 commands incl. method calls, unbound keys, key "
+             "releases, pastes (a third with control characters), joining characters, joining deletions, assignments of Value, resizes; hand-written corners. Every command is one event checked by LineEdit!Next "
              "(text, cursor), ChangeOK/SubmitOK (callbacks) and ColOK (drawn cursor); distinct = distinct descriptor")
